@@ -365,6 +365,18 @@ pub fn run(cfg: &Cfg) {
             one(&mut out, &["crt", a, &hx(&p)]);
         }
     }
+    // payloads that are far larger than a frame before compression and small after it (a batch of large, repetitive
+    // messages): sizes around the block / window sizes the libraries choose by length (4 MiB and beyond)
+    // (moderate levels: brotli's highest qualities need minutes for this much input)
+    for a in ["gzip:bal", "zlib:bal", "zstd:bal", "zstd:12", "lz4:-", "brg:4", "brt:2"] {
+        for len in [(4usize << 20) - 1, (4 << 20) + 1, 6 << 20, (8 << 20) + 3] {
+            let mut p = Vec::with_capacity(len);
+            let mut k = 0u8;
+            while p.len() < len { let n = (81_920usize).min(len - p.len()); p.extend(std::iter::repeat(b'a' + k % 26).take(n)); k = k.wrapping_add(1); }
+            out.stat("payload_beyond_a_frame");
+            one(&mut out, &["crt", a, &hx(&p)]);
+        }
+    }
     if cfg.tier == Tier::Thorough {
         for a in &all {
             let p = vec![0x5au8; 1 << 20];
